@@ -35,6 +35,13 @@ CHECKS = {
         "h5py/numpy trusted; the 1.19e-7 floor is compared to three digits as stated; out-of-range energy with an above-maximum angle is don't-care.",
         "DESIGN.md §4 C05",
     ),
+    "C06": (
+        "exploration",
+        "Hypothesis property-based differential testing of the production Cherenkov kernel against a from-scratch float64 shower model (different decomposition, no shared code): float32 production path at the statement's tolerances, the unchanged kernel switched to float64 by a guarded hook at 1e-9, bit-identity metamorphic relation for the 1-degree clamp, C++ step function (rebuilt from the tree) vs own Python loop",
+        "Generated (beta, altitude, energy, detector altitude) incl. all domain corners and branch points. The float64 companion comparison detects logic changes far below the 10% production tolerance. Evidence, not proof; the reference shares the published model (not the code) with the kernel.",
+        "numpy/math trusted; pybind11 absent -> zsteps.cpp rebuilt against a stand-in header (bit-identical to the shipped extension); hook NUSPACESIM_VERIF_DTYPE only changes the kernel's dtype.",
+        "DESIGN.md §4 C06",
+    ),
     "C07": (
         "exploration",
         "Hypothesis property-based testing with hand-written constants and an explicit-vector, cancellation-free altitude reference; metamorphic monotonicity on generated pairs; scripted numpy.random for the internal-generator paths",
